@@ -4,6 +4,7 @@ import LentilVerif.Lemmas.Field
 import LentilVerif.Lemmas.Reduce
 import LentilVerif.Lemmas.ReduceZ
 import LentilVerif.Gen.FieldMerge
+import LentilVerif.Gen.FieldDispatch
 import Mathlib.Algebra.Ring.Defs
 import Mathlib.Tactic.SplitIfs
 import Mathlib.Algebra.GroupWithZero.Defs
@@ -238,6 +239,26 @@ example : ((⟨⟨1, 1, fun _ _ => (3 : Int)⟩, 100000, 100000⟩ : Fld Int).mu
     ((⟨⟨1, 1, fun _ _ => (3 : Int)⟩, 100000, 100000⟩ : Fld Int).mul ⟨⟨1, 1, fun _ _ => 5⟩, 100000, 100000⟩).map
       (fun p => (p.extent, p.emb 100000 100000)) = some (⟨100000, 100000, 100000, 100000⟩, 15) := by decide
 
+/-- **the dispatch of `Field.__mul__` / `_mul_scalar`, as generated from the source** (`Gen.mulBothOne` from
+`self.size == 1 and other.size == 1`, `Gen.mulScalarSame` from `np.array_equal(self.offset, other.offset)`), is the pair of
+guards the hand model `Fld.mul` branches on: both operands one-element, and offsets equal **exactly** in both components —
+an edit of either test in the source changes the generated definition and breaks this theorem -/
+theorem mul_dispatch_spec (a b : Fld K) (ha : 0 < a.arr.s0 ∧ 0 < a.arr.s1) (hb : 0 < b.arr.s0 ∧ 0 < b.arr.s1) :
+    Gen.mulBothOne (a.arr.s0 * a.arr.s1) (b.arr.s0 * b.arr.s1) = (a.size1 && b.size1) ∧
+    Gen.mulScalarSame a.o0 a.o1 b.o0 b.o1 = (decide (a.o0 = b.o0) && decide (a.o1 = b.o1)) := by
+  have key : ∀ x y : Int, 0 < x → 0 < y → (x * y = 1 ↔ x = 1 ∧ y = 1) := by
+    intro x y hx hy
+    constructor
+    · intro h
+      exact ⟨Int.eq_one_of_mul_eq_one_right (Int.le_of_lt hx) h, Int.eq_one_of_mul_eq_one_left (Int.le_of_lt hy) h⟩
+    · rintro ⟨rfl, rfl⟩; rfl
+  refine ⟨?_, rfl⟩
+  simp only [Gen.mulBothOne, Fld.size1]
+  rw [Bool.eq_iff_iff]
+  simp only [Bool.and_eq_true, decide_eq_true_eq, key _ _ ha.1 ha.2, key _ _ hb.1 hb.2]
+example : Gen.mulBothOne 1 1 = true ∧ Gen.mulBothOne 1 6 = false ∧ Gen.mulScalarSame 100000 7 100000 7 = true ∧
+    Gen.mulScalarSame 100000 7 100001 7 = false := by decide
+
 end translate
 
 /-! ## Merging -/
@@ -348,6 +369,12 @@ theorem reduce_fixed_point_iff (gs : List (Group K)) :
 /-- extents that share exactly one pixel row (row 2) intersect; abutting ones (rows 0..2 and 3..5) do not -/
 example : intersect ⟨0, 2, 0, 2⟩ ⟨2, 4, 0, 2⟩ = true ∧ intersect ⟨0, 2, 0, 2⟩ ⟨3, 5, 0, 2⟩ = false ∧
     intersect ⟨0, 2, 0, 2⟩ ⟨2, 4, 2, 4⟩ = true := by decide
+
+/-- **the merge step of `_disjoint`, as recognised in the source** (`Gen.disjointStep`: which group of the pair `(m, n)` is
+kept, whose fields are appended, whose extent is recomputed with `boundary`, which is popped; m = 0, n = 1): keep `m`,
+append `n`'s fields, recompute `m`, pop `n` — exactly the step of the model (`(gs.set m (mergeGroups gm gk)).eraseIdx k`,
+`disjoint_succ_some`), scanned in `combinations` order and restarted after each merge -/
+theorem disjoint_step_spec : Gen.disjointStep = (0, 1, 0, 1) := rfl
 
 /-- the group invariant (`Group.wf`: member fields of positive shape; a singleton group caches its field's extent; a
 group of ≥ 2 fields caches `boundary` of its members) holds initially and is preserved by every step of `_disjoint` -/
